@@ -132,6 +132,33 @@ class StubDetector:
         return polys, bls, hs, [textline_of(np, self.helpers, b) for b in bls]
 
 
+def check_reassign(np, sg, layout, helpers):
+    """the same region OBJECTS take lines twice and their polygons are replaced in between (as retrace_region / a second extractor
+    pass do): the second batch of lines is placed with respect to the polygon the region has THEN"""
+    bad = []
+    old_poly = np.asarray([[10, 10], [210, 10], [210, 110], [10, 110]], dtype=float)
+    new_poly = np.asarray([[60, 10], [120, 10], [120, 110], [60, 110]], dtype=float)
+    for first_round in (True, False):
+        region = layout.RegionLayout('r1', old_poly.copy())
+        if first_round:
+            b0 = [np.asarray([[20, 30], [200, 30]], dtype=float)]
+            helpers.assign_lines_to_regions(b0, [[8.0, 3.0]], [textline_of(np, helpers, b0[0])], [region])
+        region.polygon = new_poly.copy()
+        region.lines = []
+        b1 = [np.asarray([[5, 60], [230, 62]], dtype=float)]
+        out = helpers.assign_lines_to_regions(b1, [[8.0, 3.0]], [textline_of(np, helpers, b1[0])], [region])
+        rp = sg.Polygon(new_poly)
+        for l in out[0].lines:
+            if not rp.buffer(1e-6).contains(sg.LineString(l.baseline)):
+                bad.append(('placed-line-inside-region', 'after the polygon of region r1 was replaced (lines assigned before: %r) the line placed in it '
+                            'runs x %.0f..%.0f, the region x 60..120' % (first_round, np.asarray(l.baseline)[:, 0].min(), np.asarray(l.baseline)[:, 0].max())))
+            if not rp.buffer(1e-6).contains(sg.Polygon(l.polygon)):
+                bad.append(('outline-clipped', 'after the polygon of region r1 was replaced the outline of the line placed in it is not inside it'))
+        if len(out[0].lines) != 1:
+            bad.append(('inside-line-placed', '%d lines placed in the replaced polygon, 1 expected' % len(out[0].lines)))
+    return bad
+
+
 def check_extractor(np, layout, helpers, pp, detect_regions, multi, merge, stray=False):
     le = pp.LayoutExtractor.__new__(pp.LayoutExtractor)
     le.detect_regions, le.detect_lines, le.multi_orientation, le.merge_lines = detect_regions, True, multi, merge
@@ -238,7 +265,18 @@ def run(ctx):
             if not any(f.signature == sig('rt', 'LayoutExtractor.process_page', clause) for f in fails):
                 fails.append(Failure(sig('rt', 'LayoutExtractor.process_page', clause), detail, function='LayoutExtractor.process_page',
                                      input={'detect_regions': dr, 'multi_orientation': mo, 'merge_lines': mg, 'stray': stray}, observed=detail, clause=clause))
-    ctx.add_bounded('layout-extractor-options', 'stub detector (with / without a first line in the margin that no region takes) x detect_regions x multi_orientation x merge_lines', n, n - 2, True,
+    import shapely.geometry as sg_
+    n += 2
+    try:
+        with contextlib.redirect_stdout(io.StringIO()):
+            bad = check_reassign(np, sg_, layout, helpers)
+    except Exception as e:
+        bad = [('no-exception', 'assign_lines_to_regions raised %r on a region whose polygon was replaced' % (e,))]
+    for clause, detail in bad:
+        if not any(f.signature == sig('rt', 'assign_lines_to_regions:reassign', clause) for f in fails):
+            fails.append(Failure(sig('rt', 'assign_lines_to_regions:reassign', clause), detail, function='assign_lines_to_regions',
+                                 input={'reassign': True}, observed=detail, clause=clause))
+    ctx.add_bounded('layout-extractor-options', 'stub detector (with / without a first line in the margin that no region takes) x detect_regions x multi_orientation x merge_lines; lines assigned to a region object again after its polygon was replaced', n, n - 2, True,
                     [{'detect_regions': False, 'multi_orientation': True, 'merge_lines': False}], fails, rule='all 16 combinations', clause='line and region ids distinct on the page')
     items = bounded.order(plans(thorough), ctx.seed)
     res = bounded.pmap(_chunk, bounded.shard(items, 32))
@@ -265,6 +303,12 @@ def replay(entry):
     if 'regions' in inp:
         r = _chunk([(tuple(inp['regions']), tuple(inp['lines']))])
         bad = [(f['clause'], f['observed']) for f in r['failures']]
+    elif inp.get('reassign'):
+        import numpy as np
+        import shapely.geometry as sg
+        from pero_ocr.core import layout
+        from pero_ocr.layout_engines import layout_helpers as helpers
+        bad = check_reassign(np, sg, layout, helpers)
     elif 'detect_regions' in inp:
         import numpy as np
         from pero_ocr.core import layout
